@@ -234,18 +234,30 @@ def _explore(out, tier, seed, facts, replay):
     cases = []
     for bt in ["below", "below=", "above", "above=", "within", "=within", "within=", "=within="]:
         ts = [0.0, 1.0]
-        for iv in verif.util.get_intervals(bt, np.array(ts)):
-            cand = [-5.0, 0.0, 0.5, 1.0, 7.0]
-            ins = [x for x in cand if iv.within(x)]
-            outs = [x for x in cand if not iv.within(x)]
-            for i in ins[:2] + ins[-1:]:
-                for o in outs[:2] + outs[-1:]:
+        ivs_ = verif.util.get_intervals(bt, np.array(ts))
+        ends = [(0.0, 1.0)] if "within" in bt else [(0.0, 0.0), (1.0, 1.0)]
+        if len(ivs_) != len(ends):
+            out.violation("get_intervals-count:%s" % bt, "get_intervals(%r, [0, 1]) gives %d intervals, expected %d" % (bt, len(ivs_), len(ends)), {"bin_type": bt})
+            continue
+        for iv, (t_, u_) in zip(ivs_, ends):
+            # inside / outside by the DOCUMENTED event of the bin type (not by the implementation), including values on and just
+            # off the thresholds
+            def doc(x, bt=bt, t_=t_, u_=u_):
+                return {"below": x < t_, "below=": x <= t_, "above": x > t_, "above=": x >= t_,
+                        "within": t_ < x < u_, "=within": t_ <= x < u_, "within=": t_ < x <= u_, "=within=": t_ <= x <= u_}[bt]
+            cand = [-5.0, 0.0, 0.5, 1.0, 7.0, t_ - 1e-6, t_ + 1e-6, u_ - 1e-6, u_ + 1e-6]
+            ins = [x for x in cand if doc(x)]
+            outs = [x for x in cand if not doc(x)]
+            ins = ins[:2] + [x for x in ins if x in (t_, u_, t_ - 1e-6, t_ + 1e-6, u_ - 1e-6, u_ + 1e-6)][:3] + ins[-1:]
+            outs = outs[:2] + [x for x in outs if x in (t_, u_, t_ - 1e-6, t_ + 1e-6, u_ - 1e-6, u_ + 1e-6)][:3] + outs[-1:]
+            for i in list(dict.fromkeys(ins)):
+                for o in list(dict.fromkeys(outs)):
                     cases.append((bt, iv, i, o))
     vt = list(tables(4 if tier == "quick" else 6))
     rng.shuffle(vt)
     for k, tab in enumerate(vt[: (120 if tier == "quick" else 10 ** 6)]):
         a, b, c, d = tab
-        for bt, iv, ins, outs in (cases if tier != "quick" else cases[k % 3::3]):
+        for bt, iv, ins, outs in (cases if tier != "quick" else cases[k % 7::7]):
             obs, fcst = realise(a, b, c, d, ins, outs)
             # add pairs with a missing side: they must not change anything
             obs2 = obs + [NAN, ins, NAN]
